@@ -392,7 +392,7 @@ func (w *World) generic(rs reqSpec, r *Resp) {
 		if w.tainted["*"] && len(rs.repos) == 0 {
 			excused = true
 		}
-		if w.lenientUpload5xx && (r.route == "upload" || r.route == "upload-post" || (r.route == "manifest" && rs.method == "PUT")) {
+		if w.lenientUpload5xx && r.route == "manifest" && rs.method == "PUT" {
 			// the session (a manifest push uses one internally) may expire or be evicted by other clients while the request is in flight
 			excused = true
 		}
